@@ -31,11 +31,87 @@ def cases(tier, seed):
     # deep columns: the highest retained components decay by e^-40 .. e^-70 over the column (far beyond what the top node can
     # resolve in double precision) while the output level sits in the lowest eighth, where they are still well resolved
     out += [{"seed": seed, "idx": i, "kind": "order", "deep": True, "_cost": 3} for i in range(n // 5)]
+    # large spectra: more than 512 x 512 retained components (above the default mode count; where an implementation that works
+    # through the spectrum in blocks or switches algorithm by size would first do so), judged component by component
+    out += [{"seed": seed, "idx": i, "kind": "large", "_cost": 25} for i in range(3 if tier == "quick" else 64)]
     return out
 
 
 def run_case(case):
+    if case["kind"] == "large":
+        return large(case)
     return closed_form(case) if case["kind"] == "closed_form" else order(case)
+
+
+def large(case):
+    """More than 512 x 512 retained components: every resolved component of the numerical mode converges to the closed form."""
+    import numpy as np
+    from vlib import gen, solve, oracles
+
+    rng = gen.rng_for(case["seed"], "C05L", case["idx"])
+    shapes = [(768, 512), (512, 768), (1024, 288), (600, 450), (514, 512), (520, 506), (700, 376), (1100, 240)]
+    nx, ny = shapes[int(rng.integers(len(shapes)))] if case["idx"] >= 3 else shapes[case["idx"]]
+    trunc = bool(rng.random() < 0.35)
+    gx, gy = (nx, ny)
+    if trunc:
+        # the same retained count on a larger grid (truncation switched on)
+        gx, gy = nx + 2 * int(rng.integers(8, 40)), ny + 2 * int(rng.integers(8, 40))
+    dx = float(rng.uniform(2.0, 20.0))
+    dy = float(dx * rng.uniform(0.6, 1.6))
+    U, th = float(rng.uniform(1.0, 8.0)), float(rng.uniform(0, 2 * np.pi))
+    H = float(rng.uniform(1.2, 2.0) * min(dx, dy))          # a shallow column: growth of the fastest retained component <= ~10
+    K = float(U * H / 10 ** rng.uniform(0.0, 1.2))
+    ax, ay = float(rng.uniform(0.5, 2.0)), float(rng.uniform(0.5, 2.0))
+    const = (U * np.cos(th), U * np.sin(th), ax * K, ay * K, K)
+    z0 = float(0.02 * H)
+    n0 = int(rng.integers(3, 7))
+    kxm, kym = np.pi * nx / (dx * gx), np.pi * ny / (dy * gy)
+    lv_frac = float(rng.choice([1.0, 0.5]))
+    out = {}
+    G = None
+    calls = 0
+    for mult in (1, 4):
+        n = 2 * n0 * mult
+        z = np.linspace(z0, H, n + 1)
+        prof = tuple(np.full(n + 1, c) for c in const)
+        if G is None:
+            G = gen.growth(z, prof, kxm, kym)
+            res_ = None
+        St = {"z": z, "profiles": prof, "domain": (gx * dx, gy * dy), "halo": 0.0, "modes": (nx, ny)}
+        q0 = np.zeros((gy, gx))
+        q0[0, 0] = 1.0
+        L = int(round(n * lv_frac))
+        _, cn, fn = solve.solve(St, q0, L, precision="double")
+        _, ca, fa = solve.solve(St, q0, L, analytic=True, precision="double")
+        calls += 2
+        N = gx * gy
+        out[mult] = (np.fft.fft2(fn) - np.fft.fft2(fa), np.fft.fft2(cn) - np.fft.fft2(ca), np.fft.fft2(fa), np.fft.fft2(ca), z)
+    if G > 12.0:
+        return {"evals": 0, "nontrivial": False, "skipped": "G > 12 for the large-spectrum set-up"}
+    KX, KY, ok = oracles.mode_wavenumbers(gx, gy, dx, dy)
+    inside = solve.spectrum_mask(gy, gx, ny, nx) & ok
+    # resolved on the coarse grid: |T| dz^2 / Kz <= 0.5
+    dzc = (H - z0) / (2 * n0)
+    T = np.abs(const[2] * KX**2 + const[3] * KY**2 + 1j * (const[0] * KX + const[1] * KY))
+    m = inside & (T * dzc * dzc / const[4] <= 0.5)
+    nm = int(m.sum())
+    viol, resid = [], {}
+    floor = 1e-10 * float(np.exp(G))
+    for name, k_ in (("flx", 0), ("conc", 1)):
+        ref = float(np.max(np.abs(out[4][2 + k_][m]))) or 1.0
+        e1 = np.abs(out[1][k_]) / ref
+        e4 = np.abs(out[4][k_]) / ref
+        E1, E4 = float(e1[m].max()), float(e4[m].max())
+        resid[f"large_spectrum_{name}_fine_over_coarse"] = E4 / E1 if E1 > 0 else 0.0
+        if not E4 <= E1 / 10.0 + floor:
+            j, i = np.unravel_index(int(np.argmax(np.where(m, e4, 0.0))), e4.shape)
+            viol.append({"what": "large_spectrum_component_does_not_converge_to_closed_form", "field": name, "coarse_error": E1, "fine_error": E4,
+                         "worst_component": (int(np.fft.fftfreq(gx, 1.0 / gx)[i]), int(np.fft.fftfreq(gy, 1.0 / gy)[j])), "grid": (gx, gy), "modes": (nx, ny),
+                         "layers": (2 * n0, 8 * n0), "G": G, "const": const})
+    b = {"c:large_spectrum": 1, "c:truncated" if trunc else "c:all_modes": 1, f"c:retained:{nx}x{ny}": 1}
+    return {"evals": 2 * nm, "nontrivial": nm >= 1000 and nx * ny > 512 * 512, "sig": f"L|{case['idx']}", "buckets": b, "resid": resid,
+            "counters": {"solver_calls": calls, "large_spectrum_components_compared": 2 * nm}, "violations": viol,
+            "sample": {"grid": (gx, gy), "modes": (nx, ny), "dx": dx, "dy": dy, "H": H, "layers": (2 * n0, 8 * n0), "G": G, "components_compared": nm}}
 
 
 def closed_form(case):
